@@ -58,7 +58,7 @@ pub fn run_one(ctx: &Ctx, rep: &mut Report, seq: &[usize], seed: u64, label: &st
         if answered || nth >= probe_round + MAX_ROUNDS_UNANSWERED + 2 { TrackerStep::Good } else { step_of(seq_v[(nth as usize) % seq_v.len()]) }
     });
     let max_ms = (l + MAX_ROUNDS_UNANSWERED + 10) * 1100 + 30_000;
-    let cfg = SimCfg { torrent: torrent.clone(), peers, tracker: vec![], failpoints: None, max_virtual_ms: max_ms, stop_on_extract: true, linger_ms: 200, disk_on: disk_never, seed, tracker_fn: Some(tracker_fn), driver: None };
+    let cfg = SimCfg { torrent: torrent.clone(), peers, tracker: vec![], failpoints: None, max_virtual_ms: max_ms, stop_on_extract: true, linger_ms: 200, disk_on: disk_never, seed, pre: None, tracker_fn: Some(tracker_fn), driver: None };
     rep.evaluations += 1;
     let o = run_sim(cfg, &ctx.scratch, 180);
     let names: Vec<&str> = seq.iter().map(|k| KINDS[*k]).collect();
@@ -154,7 +154,7 @@ pub fn run_overlap(ctx: &Ctx, rep: &mut Report, seed: u64, fault_kind: usize) {
         let now = log.now_ms();
         if (answered && now > probe_at) || fails >= MAX_ROUNDS_UNANSWERED + 6 { TrackerStep::Good } else { fails += 1; step_of(fault_kind) }
     });
-    let cfg = SimCfg { torrent: torrent.clone(), peers, tracker: vec![], failpoints: None, max_virtual_ms: 120_000, stop_on_extract: true, linger_ms: 200, disk_on: disk_never, seed, tracker_fn: Some(tracker_fn), driver: None };
+    let cfg = SimCfg { torrent: torrent.clone(), peers, tracker: vec![], failpoints: None, max_virtual_ms: 120_000, stop_on_extract: true, linger_ms: 200, disk_on: disk_never, seed, pre: None, tracker_fn: Some(tracker_fn), driver: None };
     rep.evaluations += 1;
     let o = run_sim(cfg, &ctx.scratch, 180);
     let desc = json!({"family": "overlapping announces: reply #0 lists two unreachable peers; of the two re-announces the first succeeds, the second keeps failing", "fault": KINDS[fault_kind], "probe_connects_at_ms": probe_at, "seed": seed});
